@@ -374,6 +374,9 @@ func (z *ioDecReader) readxb(n uint) (out []byte, useBuf bool) {
 	if n == 0 {
 		return zeroByteSlice, false
 	}
+	if int(n) < 0 { // a claimed length that no input can satisfy: fail before counting it as read
+		z.unexpectedEOF()
+	}
 
 	if z.bufio {
 	BUFIO:
@@ -426,6 +429,9 @@ func (z *ioDecReader) readxb(n uint) (out []byte, useBuf bool) {
 func (z *ioDecReader) skip(n uint) {
 	if n == 0 {
 		return
+	}
+	if int(n) < 0 { // a claimed length that no input can satisfy: fail before counting it as read
+		z.unexpectedEOF()
 	}
 
 	if z.bufio {
